@@ -116,7 +116,7 @@ func (t *setupTx) Version() int                   { return module.TransactionVer
 func (t *setupTx) ToJSON(version module.JSONVersion) (interface{}, error) {
 	return map[string]interface{}{"type": t.Type, "serial": t.Serial}, nil
 }
-func (t *setupTx) ValidateNetwork(nid int) bool                        { return true }
+func (t *setupTx) ValidateNetwork(nid int) bool                         { return true }
 func (t *setupTx) PreValidate(wc state.WorldContext, update bool) error { return nil }
 func (t *setupTx) GetHandler(cm contract.ContractManager) (transaction.Handler, error) {
 	return t, nil
